@@ -204,7 +204,7 @@ CONFIG = {
             {"name": "c07m", "n": {"quick": 8000, "thorough": 160000}, "trivial": lambda case, ans: False},
             {"name": "c02", "n": {"quick": 6000, "thorough": 120000}, "trivial": lambda case, ans: False},
             {"name": "c12", "n": {"quick": 20000, "thorough": 200000}, "trivial": lambda case, ans: False},
-            {"name": "c13", "n": {"quick": 40000, "thorough": 40000}, "trivial": lambda case, ans: False},
+            {"name": "c13", "n": {"quick": 60000, "thorough": 60000}, "trivial": lambda case, ans: False},
             {"name": "c11", "n": {"quick": 4000, "thorough": 60000}, "trivial": lambda case, ans: False},
             {"name": "c14", "n": {"quick": 10000, "thorough": 100000}, "trivial": lambda case, ans: False},
             {"name": "c18recv", "n": {"quick": 2000, "thorough": 100000}, "trivial": lambda case, ans: False},
@@ -262,7 +262,7 @@ CONFIG = {
     "C13": {
         "lean_modules": ["Darling.Props.C13"],
         "streams": [
-            {"name": "c13", "n": {"quick": 40000, "thorough": 40000},
+            {"name": "c13", "n": {"quick": 60000, "thorough": 60000},
              "trivial": lambda case, ans: False},
         ],
         "rule": "exhaustive: all 54 syntax-valued implementors (regenerated macro invocation lists) x 518 item forms (98 values from a grammar of paths / identifiers incl. raw and keywords / expressions / types / visibilities / where-predicates / literal arrays, each bare, quoted and as list body, plus 13 literal spellings; every name-value form also wrapped in an invisible group) + from_none; distinct by case text",
@@ -282,7 +282,7 @@ CONFIG = {
     "C15": {
         "lean_modules": ["Darling.Props.C15", "Darling.Props.C15a"],
         "streams": [
-            {"name": "c15b", "n": {"quick": 50000, "thorough": 50000},
+            {"name": "c15b", "n": {"quick": 80000, "thorough": 80000},
              "trivial": lambda case, ans: False},
             {"name": "c15a", "n": {"quick": 6000, "thorough": 200000},
              "trivial": lambda case, ans: "(toks)" in case},
